@@ -20,7 +20,7 @@ var (
 	Emails     = []string{"", "info@a.example", "x@y"}
 	RouteIDs   = []string{"", "R1", "r2", "10", "9", "R1 "}
 	Colors     = []string{"", "FFFFFF", "000000", "00AA11", "ff0000"}
-	StopIDs    = []string{"", "S1", "s2", "st3", "P4", "p5", "x6", "S1 "}
+	StopIDs    = []string{"", "S1", "s2", "st3", "P4", "p5", "x6", "S1 ", "1", "12", "11", "2"}
 	Codes      = []string{"", "c1", "C2"}
 	Zones      = []string{"", "z1", "z2"}
 	ServiceIDs = []string{"", "10", "9", "WK", "sa", "su", "WK "} // "WK " is only ever referenced, never a calendar id (it is out of order)
@@ -28,7 +28,7 @@ var (
 	TripIDs    = []string{"", "T1", "t2", "t3", "10", "9", "T1 "}
 	BlockIDs   = []string{"", "b1", "B2"}
 	Bads       = []string{"", "abc", "12:xx:00", "2024-01-01", "1.5x", "--", "12a", "08:10:00:00", "1:2:3:4:5", ":::", "99999999999999999999",
-		"4294967297", "08:10:\xa000", "true", "T"} // 2^32+1 (wraps to 1 as an int32); a lone 0xA0 byte (not UTF-8, not a space) inside a time; booleans
+		"4294967297", "08:10:\xa000", "true", "T", "20230230", "20230431"} // 2^32+1 (wraps to 1 as an int32); a lone 0xA0 byte (not UTF-8, not a space) inside a time; booleans; dates that exist in no calendar
 )
 
 // Dec is a decimal fraction token: its CSV text and the float64 the text denotes (the Go compiler converts
